@@ -44,7 +44,14 @@ var pfTypes = []pfType{
 	{"Settings", TShape{K: "named", Path: "{o}", Name: "Settings"}, "alias"},
 	{"Conf", TShape{K: "named", Path: "{o}", Name: "Conf"}, "alias"},
 	{"Text", TShape{K: "named", Path: "{o}", Name: "Text"}, "alias"},
+	// outside the main menu (pfMainTypes): an unnamed interface type with a method.  TypeLit prints every unnamed
+	// interface as `any` (known finding F30); the shape is that pinned behaviour, so that the rest of the field list is
+	// still compared with the model, and the oracle reports the field itself
+	{"interface{ Do() }", TShape{K: "any"}, "unnamed-interface"},
 }
+
+const pfMainTypes = 22
+const pfUnnamedIface = 22
 
 const partialConf = "package conf\n\ntype Conf struct {\n\tN int\n\tL []string\n}\n"
 
@@ -273,8 +280,8 @@ func check(tag string, partialPtr any, origin any, omitted map[string]bool, repl
 			}
 			continue
 		}
-		if name == replaced {
-			continue
+		if name == replaced || name == "_" {
+			continue // a blank field cannot be read through reflection (nor set by anyone)
 		}
 		if !reflect.DeepEqual(of.Interface(), src.Elem().FieldByName(name).Interface()) {
 			fmt.Println(tag, "V RETAINED-NOT-EQUAL", name, map[bool]string{true: "(containers allocated but empty)", false: ""}[sp])
@@ -491,6 +498,8 @@ func (c *partialCase) Oracle(out string) string {
 		return "the partialstruct generator failed: " + out
 	case out == "no-file" || out == "unparseable":
 		return "no parseable output: " + out
+	case c.unnamedIfaceClass():
+		return "the generated code does not compile: " + clip(r.build, 300) + " — " + partialIfaceClass
 	case r.build != "":
 		return "the generated code does not compile: " + clip(r.build, 500)
 	case len(r.probe) > 0:
@@ -537,6 +546,9 @@ func (c *partialCase) Shrinks() []Case {
 }
 
 func (c *partialCase) Key() string {
+	if c.unnamedIfaceClass() {
+		return "class: " + partialIfaceClass
+	}
 	var fs []string
 	for _, f := range c.Fields {
 		fs = append(fs, fmt.Sprintf("%s %s `%s`", f.Name, pfTypes[f.Ty].text, f.Tag))
@@ -577,14 +589,19 @@ func genPartial(r *Rng) *partialCase {
 	c := &partialCase{}
 	n := 1 + r.Intn(6)
 	for i := 0; i < n; i++ {
-		f := PField{Name: fmt.Sprintf("F%d", i), Ty: r.Intn(len(pfTypes)), Tag: Pick(r, pfTags)}
+		f := PField{Name: fmt.Sprintf("F%d", i), Ty: r.Intn(pfMainTypes), Tag: Pick(r, pfTags)}
 		if r.Chance(30) {
 			f.Doc = Pick(r, []string{"F documented", "with \"quotes\" and %v", fmt.Sprintf("F%d is a field", i)})
 		}
 		c.Fields = append(c.Fields, f)
 	}
+	if r.Chance(12) {
+		// a blank field (padding, a marker): it is a field of the origin like any other, but nothing can refer to it
+		k := r.Intn(len(c.Fields))
+		c.Fields[k].Name, c.Fields[k].Ty = "_", r.Intn(2)
+	}
 	for _, f := range c.Fields {
-		if r.Chance(25) {
+		if r.Chance(25) && f.Name != "_" {
 			c.Omit = append(c.Omit, f.Name)
 		}
 	}
@@ -602,6 +619,56 @@ func genPartial(r *Rng) *partialCase {
 		}
 	}
 	return c
+}
+
+// genPartialIface: an origin with a field of an unnamed interface type that has a method, among fields of the main menu
+func genPartialIface(r *Rng) *partialCase {
+	c := &partialCase{}
+	n := 1 + r.Intn(4)
+	k := r.Intn(n)
+	for i := 0; i < n; i++ {
+		f := PField{Name: fmt.Sprintf("F%d", i), Ty: r.Intn(pfMainTypes), Tag: Pick(r, pfTags)}
+		if i == k {
+			f.Ty = pfUnnamedIface
+		}
+		c.Fields = append(c.Fields, f)
+	}
+	for _, f := range c.Fields {
+		if r.Chance(20) {
+			c.Omit = append(c.Omit, f.Name)
+		}
+	}
+	return c
+}
+
+const partialIfaceClass = "a retained origin field of an unnamed interface type with methods is declared `any` in the generated struct (TypeLit prints every unnamed interface as any), so the types differ and the copy back does not compile"
+
+// unnamedIfaceClass: the case has retained fields of the unnamed interface type, the generated struct declares every one
+// of them `any`, and the package does not compile
+func (c *partialCase) unnamedIfaceClass() bool {
+	if c.res == nil || c.res.build == "" || c.Kind != "" {
+		return false
+	}
+	obs := c.observe()
+	if !strings.HasPrefix(obs, "fields ") {
+		return false
+	}
+	got := map[string]string{}
+	for _, f := range strings.Split(strings.TrimPrefix(strings.SplitN(obs, " imports ", 2)[0], "fields "), ";") {
+		if p := strings.Split(f, "|"); len(p) == 3 {
+			got[unhx(p[0])] = unhx(p[1])
+		}
+	}
+	n := 0
+	for _, f := range c.Fields {
+		if f.Ty == pfUnnamedIface && !c.omitted(f.Name) && f.Name != c.replacedField() {
+			if got[f.Name] != "any" {
+				return false
+			}
+			n++
+		}
+	}
+	return n > 0
 }
 
 func partialBatch(cases []Case) []string {
@@ -668,6 +735,12 @@ func init() {
 			Gen:      func(r *Rng, i int) Case { return genPartial(r) },
 			BatchRun: partialBatch, ShrinkBudget: 25, MaxShrinks: 6,
 			Rule: "origin structs in a second package with 1–6 fields over a menu of 22 types (scalars, slices, maps, arrays, pointers, named types of the origin's package, of another module package and of time, error, any, a defined interface, exported aliases of the origin's package for a struct of that package, for an unexported struct, for a struct of an internal package and for string) and 8 tags (dots, commas, brackets, non-ASCII, %v, @x), every combination of omit tags and sometimes a replace tag (a third of them naming a field that is also omitted); `type x origin.T` generated with the real generator (100 per Execute), compiled, and a probe reflecting over the generated struct vs the origin (names, order, types, tags) and running DeepCopyAs on a value whose containers are allocated but empty, on a filled value and on nil; compared with the model: field list as name / printed type / tag",
+		},
+		{
+			Name: "unnamed-interfaces", Quick: 40, Thorough: 300, New: func() Case { return &partialCase{} },
+			Gen:      func(r *Rng, i int) Case { return genPartialIface(r) },
+			BatchRun: partialBatch, ShrinkBudget: 10, MaxShrinks: 3,
+			Rule: "origin structs with 1–4 fields one of which has the unnamed interface type `interface{ Do() }` (sometimes omitted), the others from the main menu: generated with the real generator and compiled; compared with the model on the pinned behaviour of the type printer (every unnamed interface is printed `any`) so that names, order, the other types and the tags are still compared; oracle: the generated code compiles — where the field is retained it does not (known finding F30), where it is omitted everything must hold as in the origins stream",
 		},
 		{
 			Name: "rejections", New: func() Case { return &partialCase{} },
